@@ -244,6 +244,10 @@ def run(ctx):
     from .centers import check_molden_centers
 
     check_molden_centers(ctx, "R19")
+    ctx.rule("R20", "WFX: atomic numbers, core charges and the gradient are written from their own attributes (the nuclei of the converted file are those of the source)", "atomic numbers written from rounded core charges: ECP and ghost centres become other elements")
+    from .c02 import check_wfx_field_sources
+
+    check_wfx_field_sources(ctx, "R20")
     ctx.rule("R11", "segmentation before writing keeps every contraction, in order (evaluated)", "an SP / PS / general contraction is re-ordered or merged on the way to the file while the coefficient rows stay where they were")
     check_segmentation(ctx, "R11", "R11")
     ctx.rule("R9", "written coefficient rows are signs[r] x rows[permutation[r]] (symbolic evaluation of the writer expressions)", "signs are attached to the rows before they are moved (or the permutation is applied twice / on the wrong axis): coefficients of sign-flipped functions change sign or position")
